@@ -33,9 +33,15 @@ var swaps = map[token.Token][]string{
 }
 
 func main() {
-	root := os.Args[1]
+	// usage: mutgen [-set2] <root> <files…>   (-set2: the second operator set instead of the first)
+	args := os.Args[1:]
+	set2 := false
+	if len(args) > 0 && args[0] == "-set2" {
+		set2, args = true, args[1:]
+	}
+	root := args[0]
 	enc := json.NewEncoder(os.Stdout)
-	for _, rel := range os.Args[2:] {
+	for _, rel := range args[1:] {
 		path := root + "/" + rel
 		src, err := os.ReadFile(path)
 		if err != nil {
@@ -61,6 +67,65 @@ func main() {
 			name := fd.Name.Name
 			if fd.Recv != nil && len(fd.Recv.List) > 0 {
 				name = string(src[off(fd.Recv.List[0].Type.Pos()):off(fd.Recv.List[0].Type.End())]) + "." + name
+			}
+			if set2 {
+				// second operator set: conditions forced to true/false, error returns dropped,
+				// slice bounds shifted, else branches removed, loop bodies skipped after one round
+				ast.Inspect(fd.Body, func(n ast.Node) bool {
+					switch x := n.(type) {
+					case *ast.IfStmt:
+						emit(name, x.Cond.Pos(), x.Cond.End(), "true", "if-true")
+						emit(name, x.Cond.Pos(), x.Cond.End(), "false", "if-false")
+						if blk, ok := x.Else.(*ast.BlockStmt); ok && len(blk.List) > 0 {
+							emit(name, blk.Lbrace, blk.Rbrace+1, "{}", "empty-else")
+						}
+					case *ast.ReturnStmt:
+						if len(x.Results) >= 1 {
+							last := x.Results[len(x.Results)-1]
+							if id, ok := last.(*ast.Ident); ok && id.Name != "nil" && (id.Name == "err" || len(id.Name) > 3 && id.Name[len(id.Name)-3:] == "Err") {
+								emit(name, last.Pos(), last.End(), "nil", "return-nil-error")
+							}
+						}
+					case *ast.SliceExpr:
+						if x.Low != nil {
+							if _, lit := x.Low.(*ast.BasicLit); !lit {
+								t := string(src[off(x.Low.Pos()):off(x.Low.End())])
+								emit(name, x.Low.Pos(), x.Low.End(), "("+t+")+1", "slice-low+1")
+							}
+						}
+						if x.High != nil {
+							if _, lit := x.High.(*ast.BasicLit); !lit {
+								t := string(src[off(x.High.Pos()):off(x.High.End())])
+								emit(name, x.High.Pos(), x.High.End(), "("+t+")-1", "slice-high-1")
+							}
+						}
+					case *ast.IndexExpr:
+						if _, lit := x.Index.(*ast.BasicLit); !lit {
+							if _, isIdent := x.Index.(*ast.Ident); isIdent {
+								break // often a map key or a type parameter: compile errors
+							}
+							if be, ok := x.Index.(*ast.BinaryExpr); ok && (be.Op == token.ADD || be.Op == token.SUB) {
+								t := string(src[off(x.Index.Pos()):off(x.Index.End())])
+								emit(name, x.Index.Pos(), x.Index.End(), "("+t+")-1", "index-1")
+							}
+						}
+					case *ast.RangeStmt:
+						if len(x.Body.List) > 0 {
+							emit(name, x.Body.Rbrace, x.Body.Rbrace, "; break ", "range-once")
+						}
+					case *ast.CallExpr:
+						// swap the first two arguments when they are both plain identifiers
+						if len(x.Args) >= 2 {
+							a, okA := x.Args[0].(*ast.Ident)
+							b, okB := x.Args[1].(*ast.Ident)
+							if okA && okB && a.Name != b.Name && a.Name != "nil" && b.Name != "nil" {
+								emit(name, x.Args[0].Pos(), x.Args[1].End(), b.Name+", "+a.Name, "swap-args")
+							}
+						}
+					}
+					return true
+				})
+				continue
 			}
 			ast.Inspect(fd.Body, func(n ast.Node) bool {
 				switch x := n.(type) {
